@@ -217,7 +217,7 @@ def real_open(*a, **k):
     return _real["open"](*a, **k)
 
 
-class FileProxy(object):
+class FileProxy(io.BufferedIOBase):
     """Forwarding proxy over an unbuffered real file that models a *buffered* writer:
     data handed to write() sits in a buffer of `bufsize` bytes and reaches the file in
     low-level writes, when the buffer overflows, on flush() and on close().  Every
@@ -225,6 +225,7 @@ class FileProxy(object):
     data it carried (error) or half of it (torn).  bufsize 0 = unbuffered."""
 
     def __init__(self, sim, realf, role, bufsize=0):
+        io.BufferedIOBase.__init__(self)
         self._sim = sim
         self._real = realf
         self._role = role
@@ -276,6 +277,14 @@ class FileProxy(object):
     def close(self):
         if self._closed:
             return
+        if self._sim.exited:
+            # the simulated call is over (garbage collection of a proxy): nothing to simulate
+            self._closed = True
+            try:
+                self._real.close()
+            except Exception:
+                pass
+            return
         try:
             self._drain()
             act = self._sim.instant(self._role + "-close")
@@ -310,7 +319,17 @@ class FileProxy(object):
     def seekable(self):
         return False
 
+    def __del__(self):
+        try:
+            if not self._closed:
+                self._closed = True
+                self._real.close()
+        except Exception:
+            pass
+
     def __getattr__(self, name):
+        if name.startswith("_"):
+            raise AttributeError(name)
         return getattr(self._real, name)
 
 
@@ -333,6 +352,7 @@ class FsSim(object):
         self.trace = []
         self.fired = []
         self.crashed = False
+        self.exited = False
         self.files = []
         self._saved_tempdir = None
 
@@ -364,7 +384,9 @@ class FsSim(object):
               closefd=True, opener=None):
         if self.crashed:
             raise SimCrash("dead process")
-        if isinstance(file, int):
+        if isinstance(file, int) or opener is not None:
+            # descriptors and opener-based opens (tempfile's own machinery) are not the
+            # library's writes to a named file
             return _real["open"](file, mode, buffering, encoding, errors, newline, closefd, opener)
         writing = any(c in mode for c in "wax+")
         if not writing:
@@ -467,6 +489,7 @@ class FsSim(object):
         if _real["copyrange"] is not None:
             shutil._USE_CP_COPY_FILE_RANGE = _real["copyrange"]
         tempfile.tempdir = self._saved_tempdir
+        self.exited = True
         for f in self.files:
             try:
                 f.close()
